@@ -309,7 +309,9 @@ impl Table {
         while matches!(arr.last(), Some(Value::Nil)) {
             arr.pop();
         }
-        Table { arr, ..Table::default() }
+        let mut t = Table::default();
+        t.arr = arr;
+        t
     }
 
     /// Border (`#t`).
